@@ -4,6 +4,9 @@ from .rules import tables as T
 from .rules import pd as PD
 from .rules import em as EM
 from .rules import ls as LS
+from .rules import ab as AB
+from .rules import tj as TJ
+from .rules import ps as PS
 
 TRUST = ('trusted: the CPython parser (ast), the callee resolver of sa/model.py (receiver roles, '
          'unique method names), Python list/str/re semantics as encoded in the rules; ')
@@ -18,7 +21,8 @@ def prop(pid, rules, explanation, level, note, technique, design_ref, assumption
 
 
 prop('C01',
-     [PD.pd1, PD.pd2, PD.pd3, PD.pd4, PD.pd5, EM.em1, LS.ls1, LS.ls1_ml, LS.ls1_shell, T.sp3],
+     [PD.pd1, PD.pd2, PD.pd3, PD.pd4, PD.pd5, EM.em1, AB.ab1, LS.ls1, LS.ls1_ml, LS.ls1_shell, AB.ab3,
+      T.sp3],
      'inductive argument from static rules: tokens outside the scanner are pinned, '
      'single-character or faithful copies (PD1, PD2, SP3), pinned positions are never shifted '
      'or spread (PD3, PD4), shared tokens are never re-stamped (PD5), the error mark is used '
@@ -75,7 +79,7 @@ prop('C06',
      'DESIGN.md 3.8 (SP1-SP3), 3.6 (IX4), 4 C06')
 
 prop('C08',
-     [EM.em1, EM.em2, EM.em3],
+     [EM.em1, EM.em2, EM.em3, AB.ab1],
      'the mark is used whole (EM1), is produced only together with a diagnostic (EM2), and '
      'recovery pushes the consumed tokens back (EM3)',
      'decides the structural clauses "complete mark", "never a mark without diagnostic", '
@@ -97,7 +101,7 @@ prop('C12',
      'DESIGN.md 3.2, 4 C12')
 
 prop('C13',
-     [LS.ls1],
+     [LS.ls1, AB.ab3],
      'equal lengths after substitution for every combination of shorter / equal / longer '
      'replacement (LS1 on substitute and replace_phrases)',
      'decides the equal-length clause; more clauses follow',
@@ -106,12 +110,41 @@ prop('C13',
      'DESIGN.md 3.2, 4 C13')
 
 prop('C14',
-     [LS.ls1_shell],
+     [LS.ls1_shell, AB.ab2],
      'the concatenation of parts and the per-part offset shift stay in lock step (LS1s)',
      'decides only the lock-step clause so far',
      '',
      'static analysis: symbolic affine length evaluation',
      'DESIGN.md 3.2, 4 C14')
+
+prop('C15',
+     [TJ.tj1, TJ.tj2, TJ.tj3, AB.ab2],
+     'every access to answer data is type-checked through json_get or validated at source '
+     '(TJ1, interprocedural taint from JSONDecoder.decode through parameters, callbacks, '
+     'tuples and attributes), decoding is guarded (TJ2), the error path is one diagnostic and '
+     'exit status 1 (TJ3), reported locations are clamped into the map (AB2)',
+     'decides the core of C15 for every malformed answer: no raw operation on answer data, '
+     'every decode inside a try that ends in the diagnostic, clamped/rejected offsets; not '
+     'decided: exceptions unrelated to the answer (I/O, stdout encoding)',
+     'json_get / json_fatal are the only sanitiser and are checked structurally (TJ3)',
+     'static analysis: interprocedural taint analysis with sanitiser and validated-at-source '
+     'keys, try/except coverage, affine clamp proofs with min/max case splits',
+     'DESIGN.md 3.4, 3.2 (AB2), 4 C15')
+
+prop('C17',
+     [PS.ps1, PS.ps2, PS.ps3],
+     'nothing reachable from the per-document entry points writes to an object that outlives '
+     'the call: whole-program field-based may-alias analysis of persistent allocation sites '
+     '(module level, class level, default arguments, cache decorators) against every in-place '
+     'mutation in reachable code (PS1), no global re-binding (PS2), parser state constructed '
+     'per call (PS3); the server mutates copies only (PS1 on Handler.create_message)',
+     'decides the core of C17 for all call histories: no persistent mutable state is written '
+     'per document; not decided: state outside the interpreter (files, the LT server)',
+     'call graph incl. registry callbacks and dynamic module handlers; shallow-copy '
+     'semantics (elements of a copy alias the elements of the original)',
+     'static analysis: Andersen-style field-based points-to over persistent sites + '
+     'reachability on the resolved call graph',
+     'DESIGN.md 3.5, 4 C17')
 
 # properties not claimed (yet), with the reason; kept current by hand
 NOT_APPLICABLE = {
